@@ -286,6 +286,11 @@ var panicExceptions = map[string]string{
 }
 
 func checkC08(p *core.Program, r *core.Report) {
+	defer func() {
+		const R5 = "C08.R5 no-shared-map-with-report-goroutine"
+		r.Rule(R5, "the map handed to the asynchronous mDNS report is a copy: iterating the live map in the report goroutine while the resolver callback writes it is a fatal, unrecoverable runtime error any host on the link can trigger with a burst of records (rule shared with C17.R3)")
+		importRules(p, r, "C17", map[string]string{"C17.R3 snapshot-not-alias": R5}, nil)
+	}()
 	ensureCallSites(p)
 	const R1 = "C08.R1 panic-obligations"
 	const R2 = "C08.R2 receive-loop-blocking"
@@ -508,6 +513,10 @@ func checkC08(p *core.Program, r *core.Report) {
 					// index produced by a repo function that clamps its result to len(base)-1 (base a package-level table)
 					ok = clampedIndex(p, idx, base)
 				}
+				if !ok {
+					// less function of sort.Slice(x, less): the indices it receives are in [0, len(x))
+					ok = sortLessIndex(in.Parent(), idx, base)
+				}
 				report(fn, in, "index", nameOf(base), ok, func() string {
 					if ok {
 						return "index within bounds by a dominating guard"
@@ -669,9 +678,30 @@ func checkC08(p *core.Program, r *core.Report) {
 					nblock++
 					key := "receive in " + p.FnName(fn)
 					if isTimerChan(x.X) {
-						r.OK(R2, key, p.Pos(in.Pos()), "bounded wait on time.After")
+						// the wait has to be bounded by the program, not by the peer
+						bounded := true
+						if c, ok := core.Canon(x.X).(*ssa.Call); ok && len(c.Call.Args) == 1 {
+							if core.ConstOf(core.Canon(c.Call.Args[0])) == nil {
+								bounded = false
+							}
+						}
+						if bounded {
+							r.OK(R2, key, p.Pos(in.Pos()), "bounded wait on time.After(constant)")
+						} else {
+							r.Fail(R2, key, p.Pos(in.Pos()), "the receive loop waits on time.After(d) with a duration that is not a constant (it is computed from message content): one message with a huge value parks the read pump - the connection is then neither served nor closed")
+						}
 					} else {
 						r.Fail(R2, key, p.Pos(in.Pos()), "a blocking receive on the receive path has no timeout")
+					}
+				}
+			case *ssa.Call:
+				if core.CalleeName(&x.Call) == "time.Sleep" {
+					nblock++
+					key := "sleep in " + p.FnName(fn)
+					if core.ConstOf(core.Canon(x.Call.Args[0])) != nil {
+						r.OK(R2, key, p.Pos(in.Pos()), "constant sleep")
+					} else {
+						r.Fail(R2, key, p.Pos(in.Pos()), "the receive loop sleeps for a duration that is not a constant (computed from message content)")
 					}
 				}
 			case *ssa.Select:
@@ -1140,4 +1170,34 @@ func positiveRange(p *core.Program, arg ssa.Value) (bool, string) {
 		}
 	}
 	return true, fmt.Sprintf("every element of %s has %s > %s", g1.Name(), hiF, loF)
+}
+
+// sortLessIndex: fn is the function literal passed as less to sort.Slice / sort.SliceStable(x, less), idx is one of
+// its parameters and base is that same x: the sort package only calls less with indices of x.
+func sortLessIndex(fn *ssa.Function, idx, base ssa.Value) bool {
+	if fn.Parent() == nil {
+		return false
+	}
+	if _, isParam := idx.(*ssa.Parameter); !isParam {
+		return false
+	}
+	ok := false
+	core.EachInstr(fn.Parent(), func(in ssa.Instruction) {
+		c := core.Common(in)
+		if c == nil || len(c.Args) != 2 {
+			return
+		}
+		switch core.CalleeName(c) {
+		case "sort.Slice", "sort.SliceStable":
+		default:
+			return
+		}
+		if core.ClosureArg(c.Args[1]) != fn {
+			return
+		}
+		if core.Canon(c.Args[0]) == core.Canon(base) {
+			ok = true
+		}
+	})
+	return ok
 }
